@@ -104,3 +104,258 @@ Proof.
   - right; auto.
 Qed.
 End Group.
+
+(* ---- reverse map: all URI prefixes of a CURIE prefix registered, a shortest one canonical ---- *)
+Lemma sort_by_len_min (l : list str) u us : sort_by_len (@length chr) l = u :: us -> forall x, In x l -> length u <= length x.
+Proof.
+  intros E x Hx. unfold sort_by_len in E.
+  assert (S: Sorted (fun a b => Nat.leb (length a) (length b) = true) (sort (fun a b => Nat.leb (length a) (length b)) l)).
+  { apply sort_sorted. intros a b. destruct (Nat.leb_spec (length a) (length b)); auto. right. apply Nat.leb_le. lia. }
+  rewrite E in S. apply Sorted_StronglySorted in S; [|intros a b c0; rewrite !Nat.leb_le; lia].
+  inversion S as [|? ? S' F]; subst. rewrite Forall_forall in F.
+  assert (Hin: In x (u :: us)) by (rewrite <- E; apply sort_In; auto).
+  destruct Hin as [<-|Hin]; auto. apply Nat.leb_le. apply F; auto.
+Qed.
+
+Theorem reverse_map_records rpm rs : records_of_reverse_map rpm = Val rs ->
+  (forall u p, In (u, p) rpm -> exists r, In r rs /\ r_prefix r = p /\ In u (all_uris r) /\
+                                       (forall u', In u' (all_uris r) -> length (r_uri r) <= length u') /\ r_psyn r = []) /\
+  (forall r u, In r rs -> In u (all_uris r) -> In (u, r_prefix r) rpm).
+Proof.
+  unfold records_of_reverse_map, group_by_value. intro H.
+  change (fold_left (fun d up => dappend (snd up) (fst up) d) rpm []) with (grouped _ (@snd str str) (@fst str str) rpm []) in H.
+  set (g := grouped _ (@snd str str) (@fst str str) rpm []) in *.
+  apply sequence_val_inv in H as [L N].
+  assert (R: forall p us, In (p, us) g -> exists r, In r rs /\ r_prefix r = p /\ r_psyn r = [] /\
+               (forall x, In x (all_uris r) <-> In x us) /\ forall x, In x us -> length (r_uri r) <= length x).
+  { intros p us Hin. apply In_nth_error in Hin as [n Hn]. destruct (N n (p, us) Hn) as (r & Hr & E). simpl in E.
+    destruct (sort_by_len (@length chr) us) as [|u rest] eqn:S; [discriminate|]. unfold mk_record in E. simpl in E.
+    destruct (mem u rest); [discriminate|]. inversion E; subst. eexists. split; [eapply nth_error_In; eauto|]. simpl.
+    repeat split; auto.
+    - intro Hx. unfold all_uris in Hx. simpl in Hx. assert (In x (u :: rest)) by exact Hx. rewrite <- S in H. apply sort_In in H. auto.
+    - intro Hx. assert (In x (sort_by_len (@length chr) us)) by (apply sort_In; auto). rewrite S in H. exact H.
+    - intros x Hx. eapply sort_by_len_min; eauto. }
+  split.
+  - intros u p Hin. destruct (grouped_has _ (@snd str str) (@fst str str) rpm (u, p) Hin) as (l & Hl & Hu). simpl in *.
+    destruct (R p l Hl) as (r & Hr & Ep & Es & Eu & Emin). exists r. repeat split; auto; [apply Eu; auto|].
+    intros u' Hu'. apply Emin. apply Eu. auto.
+  - intros r u Hr Hu. apply In_nth_error in Hr as [n Hn].
+    assert (Hlen: n < length g). { assert (Hr: n < length rs) by (apply nth_error_Some; congruence). rewrite L in Hr. exact Hr. }
+    destruct (nth_error g n) as [[p us]|] eqn:Hg; [|apply nth_error_None in Hg; lia].
+    destruct (N n (p, us) Hg) as (r' & Hr' & E). rewrite Hn in Hr'. inversion Hr'; subst r'. simpl in E.
+    destruct (sort_by_len (@length chr) us) as [|u0 rest] eqn:S; [discriminate|]. unfold mk_record in E. simpl in E.
+    destruct (mem u0 rest); [discriminate|]. inversion E; subst. simpl in *.
+    assert (In u us). { assert (In u (u0 :: rest)) by exact Hu. rewrite <- S in H. apply sort_In in H. auto. }
+    apply nth_error_In in Hg. apply (grouped_in _ (@snd str str) (@fst str str)) in Hg as [-> _].
+    unfold vals_for in H. apply in_map_iff in H as ([u1 p1] & E1 & Hf). simpl in E1. subst u1. apply filter_In in Hf as [Hin Hk].
+    simpl in Hk. apply str_eqb_eq in Hk. subst. auto.
+Qed.
+
+(* ---- JSON-LD: exactly the string terms and @prefix dictionaries under valid keys ---- *)
+Theorem jsonld_records ctx : records_of_jsonld ctx = Val (map (fun pu => rec0 (fst pu) (snd pu) [] [] None) (jsonld_prefix_map ctx)).
+Proof. unfold records_of_jsonld. apply prefix_map_records. Qed.
+Lemma jsonld_pm_acc ctx : forall pm k,
+  NoDup (map fst ctx) ->
+  dget k (fold_left (fun pm kt => if jsonld_key_ok (fst kt)
+      then match snd kt with TStr s => dset (fst kt) s pm | TPrefix id => dset (fst kt) id pm | TOther => pm end else pm) ctx pm)
+  = match List.find (fun kt => str_eqb k (fst kt)) ctx with
+    | Some (_, t) => if jsonld_key_ok k then match t with TStr s => Some s | TPrefix s => Some s | TOther => dget k pm end else dget k pm
+    | None => dget k pm end.
+Proof.
+  induction ctx as [|[a t] ctx IH]; intros pm k N; simpl; auto.
+  inversion N as [|? ? Hn Hd]; subst. rewrite IH by auto.
+  destruct (str_eqb_spec k a) as [->|Hne].
+  - assert (F: List.find (fun kt => str_eqb a (fst kt)) ctx = None).
+    { destruct (List.find _ ctx) as [[a' t']|] eqn:E; auto. apply find_some in E as [Hin E]. simpl in E. apply str_eqb_eq in E. subst.
+      exfalso. apply Hn. apply in_map_iff. exists (a', t'). auto. }
+    rewrite F. destruct (jsonld_key_ok a); auto. destruct t; auto; rewrite dget_dset, str_eqb_refl; reflexivity.
+  - destruct (List.find _ ctx) as [[a' t']|] eqn:E.
+    + destruct (jsonld_key_ok k); destruct t'; auto; destruct (jsonld_key_ok a); auto; destruct t; auto;
+        rewrite dget_dset; apply str_eqb_neq in Hne; rewrite Hne; reflexivity.
+    + destruct (jsonld_key_ok a); auto. destruct t; auto; rewrite dget_dset; apply str_eqb_neq in Hne; rewrite Hne; reflexivity.
+Qed.
+(* a term is taken iff its key is non-empty, does not start with '@', and it is a string or an @prefix dictionary *)
+Theorem jsonld_terms ctx k : NoDup (map fst ctx) ->
+  dget k (jsonld_prefix_map ctx) =
+  match List.find (fun kt => str_eqb k (fst kt)) ctx with
+  | Some (_, TStr s) => if jsonld_key_ok k then Some s else None
+  | Some (_, TPrefix s) => if jsonld_key_ok k then Some s else None
+  | _ => None end.
+Proof.
+  intro N. unfold jsonld_prefix_map. rewrite jsonld_pm_acc by auto. simpl.
+  destruct (List.find _ ctx) as [[a t]|]; auto. destruct (jsonld_key_ok k), t; reflexivity.
+Qed.
+
+(* ---- upgrade_prefix_map ---- *)
+Definition group_rec (pm : list (str * str)) (u : str) : record :=
+  match sort_str (vals_for _ (@snd str str) (@fst str str) u pm) with
+  | p :: ps => rec0 p u ps [] None
+  | [] => rec0 [] u [] [] None
+  end.
+
+Lemma list_by_keys {V} (l : list (str * V)) (F : str -> V) : (forall k v, In (k, v) l -> v = F k) -> l = map (fun k => (k, F k)) (map fst l).
+Proof.
+  induction l as [|[k v] l IH]; intro H; simpl; auto. rewrite <- IH by (intros k' v' Hin; apply H; right; auto).
+  rewrite (H k v) by (left; auto). reflexivity.
+Qed.
+Lemma vals_for_nodup (pm : list (str * str)) u : NoDup (map fst pm) -> NoDup (vals_for _ (@snd str str) (@fst str str) u pm).
+Proof.
+  unfold vals_for. induction pm as [|[p u'] pm IH]; simpl; intro N; [constructor|].
+  inversion N as [|? ? Hn Hd]; subst. destruct (str_eqb u' u); simpl; auto. constructor; auto.
+  intro Hin. apply Hn. apply in_map_iff in Hin as ([p2 u2] & E & Hf). simpl in E. subst. apply filter_In in Hf as [Hin _].
+  apply in_map_iff. exists (p, u2). auto.
+Qed.
+
+(* the canonical form: one record per distinct URI prefix, in sorted order; its CURIE prefixes sorted, the first canonical *)
+Theorem upgrade_canonical pm : NoDup (map fst pm) ->
+  upgrade_prefix_map pm = Val (map (group_rec pm) (sort_uniq (map snd pm))).
+Proof.
+  intro N. unfold upgrade_prefix_map, group_by_uri.
+  change (fold_left (fun d pu => dappend (snd pu) (fst pu) d) pm []) with (grouped _ (@snd str str) (@fst str str) pm []).
+  set (g := grouped _ (@snd str str) (@fst str str) pm []).
+  assert (Ng: NoDup (dkeys g)) by (apply grouped_keys_nodup; constructor).
+  assert (Vg: forall k v, In (k, v) (sort_by_key fst g) -> v = vals_for _ (@snd str str) (@fst str str) k pm).
+  { intros k v Hin. unfold sort_by_key in Hin. apply sort_In in Hin. apply (grouped_in _ (@snd str str) (@fst str str) pm k v Hin). }
+  rewrite (list_by_keys (sort_by_key fst g) _ Vg).
+  assert (K: map fst (sort_by_key fst g) = sort_uniq (map snd pm)).
+  { apply ssorted_unique.
+    - apply sorted_nodup_strict.
+      + apply Sorted_map_fst. unfold sort_by_key. apply sort_sorted. intros a b. apply str_leb_total.
+      + eapply Permutation_NoDup; [apply Permutation_map; symmetry; apply sort_perm|exact Ng].
+    - apply sort_uniq_ssorted.
+    - intro x. rewrite sort_uniq_In. transitivity (In x (dkeys g)).
+      + unfold dkeys. split; apply Permutation_in; apply Permutation_map; [|symmetry]; apply sort_perm.
+      + split.
+        * intro Hk. apply in_map_iff in Hk as ([k l] & E & Hin). simpl in E. subst k.
+          apply (grouped_in _ (@snd str str) (@fst str str)) in Hin as [-> Hne].
+          destruct (vals_for _ snd fst x pm) as [|p ps] eqn:V; [congruence|].
+          assert (Hp: In p (vals_for _ (@snd str str) (@fst str str) x pm)) by (rewrite V; left; auto).
+          unfold vals_for in Hp. apply in_map_iff in Hp as ([p' u'] & _ & Hf). apply filter_In in Hf as [Hin Hk]. simpl in Hk.
+          apply str_eqb_eq in Hk. subst. apply in_map_iff. exists (p', x). auto.
+        * intro Hs. apply in_map_iff in Hs as ([p u] & E & Hin). simpl in E. subst u.
+          destruct (grouped_has _ (@snd str str) (@fst str str) pm (p, x) Hin) as (l & Hl & _). simpl in Hl.
+          apply in_map_iff. exists (x, l). auto. }
+  rewrite K. rewrite map_map. simpl.
+  apply sequence_map_val. intros u Hu. unfold group_rec.
+  pose proof (vals_for_nodup pm u N) as Nv.
+  destruct (sort_str (vals_for _ snd fst u pm)) as [|p ps] eqn:S.
+  - exfalso. apply (proj1 (sort_uniq_In _ _)) in Hu. apply in_map_iff in Hu as ([p0 u0] & E & Hin). simpl in E. subst u0.
+    assert (In p0 (vals_for _ (@snd str str) (@fst str str) u pm)).
+    { unfold vals_for. apply in_map_iff. exists (p0, u). split; auto. apply filter_In. split; auto. simpl. apply str_eqb_refl. }
+    assert (In p0 (sort_str (vals_for _ (@snd str str) (@fst str str) u pm))) by (apply sort_In; auto). rewrite S in H0. destruct H0.
+  - unfold mk_record. simpl.
+    assert (Np: NoDup (p :: ps)) by (rewrite <- S; eapply Permutation_NoDup; [symmetry; apply sort_perm|exact Nv]).
+    inversion Np as [|? ? Hn _]; subst. apply mem_false in Hn. rewrite Hn. reflexivity.
+Qed.
+
+(* the same records whatever the dictionary order *)
+Theorem upgrade_order_independent pm pm' : NoDup (map fst pm) -> Permutation pm pm' -> upgrade_prefix_map pm' = upgrade_prefix_map pm.
+Proof.
+  intros N P. assert (N': NoDup (map fst pm')) by (eapply Permutation_NoDup; [apply Permutation_map; exact P|exact N]).
+  rewrite !upgrade_canonical by auto.
+  assert (Ein: forall x, In x pm <-> In x pm') by (intro x; split; apply Permutation_in; [|symmetry]; auto).
+  rewrite (sort_uniq_set (map snd pm') (map snd pm)).
+  - f_equal. apply map_ext. intro u. unfold group_rec.
+    assert (E: sort_str (vals_for _ (@snd str str) (@fst str str) u pm') = sort_str (vals_for _ (@snd str str) (@fst str str) u pm)).
+    { apply ssorted_unique.
+      - apply sorted_nodup_strict; [apply sort_str_sorted|]. eapply Permutation_NoDup; [symmetry; apply sort_perm|apply vals_for_nodup; auto].
+      - apply sorted_nodup_strict; [apply sort_str_sorted|]. eapply Permutation_NoDup; [symmetry; apply sort_perm|apply vals_for_nodup; auto].
+      - intro x. unfold sort_str. rewrite !sort_In. unfold vals_for. rewrite !in_map_iff.
+        split; intros (y & E & Hf); exists y; split; auto; apply filter_In in Hf as [H1 H2]; apply filter_In; split; auto; apply Ein; auto. }
+    rewrite E. reflexivity.
+  - intro x. rewrite !in_map_iff. split; intros (y & E & Hy); exists y; split; auto; apply Ein; auto.
+Qed.
+
+Lemma NoDup_flat_map_disjoint {A B} (f : A -> list B) l : NoDup l -> (forall x, In x l -> NoDup (f x)) ->
+  (forall x y b, In x l -> In y l -> x <> y -> In b (f x) -> In b (f y) -> False) -> NoDup (flat_map f l).
+Proof.
+  induction l as [|a l IH]; simpl; intros N Hf Hd; [constructor|].
+  inversion N as [|? ? Hn Hl]; subst. apply NoDup_app_inv_rev.
+  - apply Hf. left; auto.
+  - apply IH; auto. intros x y b Hx Hy. apply Hd; right; auto.
+  - intros b Hb Hb'. apply in_flat_map in Hb' as (y & Hy & Hby). apply (Hd a y b); auto. intros ->. contradiction.
+Qed.
+Lemma dict_functional (pm : list (str * str)) p u1 u2 : NoDup (map fst pm) -> In (p, u1) pm -> In (p, u2) pm -> u1 = u2.
+Proof.
+  induction pm as [|[a b] pm IH]; simpl; intros N H1 H2; [destruct H1|]. inversion N as [|? ? Hn Hd]; subst.
+  destruct H1 as [E1|H1], H2 as [E2|H2].
+  - congruence.
+  - inversion E1; subst. exfalso. apply Hn. apply in_map_iff. exists (p, u2). auto.
+  - inversion E2; subst. exfalso. apply Hn. apply in_map_iff. exists (p, u1). auto.
+  - apply IH; auto.
+Qed.
+Lemma vals_for_In (pm : list (str * str)) u p : In p (vals_for _ (@snd str str) (@fst str str) u pm) <-> In (p, u) pm.
+Proof.
+  unfold vals_for. rewrite in_map_iff. split.
+  - intros ([p' u'] & E & Hf). simpl in E. subst. apply filter_In in Hf as [Hin Hk]. simpl in Hk. apply str_eqb_eq in Hk. subst. auto.
+  - intro Hin. exists (p, u). split; auto. apply filter_In. split; auto. simpl. apply str_eqb_refl.
+Qed.
+Lemma group_rec_prefixes pm u : In u (map snd pm) ->
+  all_prefixes (group_rec pm u) = sort_str (vals_for _ (@snd str str) (@fst str str) u pm) /\ all_uris (group_rec pm u) = [u].
+Proof.
+  intro Hu. unfold group_rec. destruct (sort_str (vals_for _ snd fst u pm)) as [|p ps] eqn:S; [|split; reflexivity].
+  exfalso. apply in_map_iff in Hu as ([p0 u0] & E & Hin). simpl in E. subst u0.
+  assert (In p0 (sort_str (vals_for _ (@snd str str) (@fst str str) u pm))) by (apply sort_In; apply vals_for_In; auto).
+  rewrite S in H. destruct H.
+Qed.
+
+(* upgrade_prefix_map ALWAYS produces records a strict converter accepts *)
+Theorem upgrade_strict d pm : NoDup (map fst pm) -> exists rs c, upgrade_prefix_map pm = Val rs /\ mk_conv true d rs = Val c.
+Proof.
+  intro N. rewrite upgrade_canonical by auto. eexists. 
+  assert (Hs: forall u, In u (sort_uniq (map snd pm)) -> In u (map snd pm)) by (intros u; apply sort_uniq_In).
+  destruct (nodup_mk_conv d (map (group_rec pm) (sort_uniq (map snd pm)))) as [c Hc].
+  - rewrite flat_map_concat_map, map_map, <- flat_map_concat_map.
+    apply NoDup_flat_map_disjoint.
+    + apply ssorted_nodup. apply sort_uniq_ssorted.
+    + intros u Hu. destruct (group_rec_prefixes pm u (Hs u Hu)) as [-> _].
+      eapply Permutation_NoDup; [symmetry; apply sort_perm|apply vals_for_nodup; auto].
+    + intros u1 u2 p H1 H2 Hne Hp1 Hp2. destruct (group_rec_prefixes pm u1 (Hs u1 H1)) as [E1 _]. destruct (group_rec_prefixes pm u2 (Hs u2 H2)) as [E2 _].
+      rewrite E1 in Hp1. rewrite E2 in Hp2. apply sort_In in Hp1, Hp2. apply vals_for_In in Hp1, Hp2.
+      apply Hne. eapply dict_functional; eauto.
+  - rewrite flat_map_concat_map, map_map, <- flat_map_concat_map.
+    rewrite (flat_map_ext _ (fun u => [u])).
+    + rewrite flat_map_concat_map. clear. induction (sort_uniq (map snd pm)) as [|a l IH] eqn:E in |- *; [constructor|].
+      revert E. generalize (sort_uniq_ssorted (map snd pm)). intros S E. rewrite E in S.
+      assert (Nl: NoDup (a :: l)) by (apply ssorted_nodup; auto). clear -Nl.
+      induction (a :: l) as [|x xs IHx]; simpl; [constructor|]. inversion Nl; subst. constructor; auto.
+      intro Hin. apply H1. clear -Hin. induction xs; simpl in *; auto. destruct Hin; auto.
+    + intro u. unfold group_rec. destruct (sort_str _); reflexivity.
+  - exists c. split; auto.
+Qed.
+
+(* every listed pair is kept; the lexicographically first CURIE prefix among duplicates is canonical, the rest synonyms *)
+Theorem upgrade_members pm p u : NoDup (map fst pm) -> In (p, u) pm ->
+  let r := group_rec pm u in
+  In r (map (group_rec pm) (sort_uniq (map snd pm))) /\ r_uri r = u /\ r_usyn r = [] /\ In p (all_prefixes r) /\
+  (forall q, In q (all_prefixes r) <-> In (q, u) pm) /\ (forall q, In q (all_prefixes r) -> str_leb (r_prefix r) q = true).
+Proof.
+  intros N Hin r. assert (Hu: In u (map snd pm)) by (apply in_map_iff; exists (p, u); auto).
+  destruct (group_rec_prefixes pm u Hu) as [Ep Eu].
+  assert (Q: forall q, In q (all_prefixes r) <-> In (q, u) pm).
+  { intro q. unfold r. rewrite Ep. unfold sort_str. rewrite sort_In. apply vals_for_In. }
+  split; [apply in_map; apply sort_uniq_In; auto|]. split; [unfold r, group_rec; destruct (sort_str _); reflexivity|].
+  split; [unfold r, group_rec; destruct (sort_str _); reflexivity|]. split; [apply Q; auto|]. split; auto.
+  intros q Hq. unfold r in *. unfold group_rec in *.
+  pose proof (sort_str_sorted (vals_for _ (@snd str str) (@fst str str) u pm)) as S.
+  destruct (sort_str (vals_for _ snd fst u pm)) as [|p0 ps] eqn:E; simpl in *.
+  - destruct Hq as [<-|[]]. reflexivity.
+  - destruct Hq as [<-|Hq]; [unfold str_leb; rewrite (proj2 (str_cmp_eq p0 p0) eq_refl); reflexivity|].
+    apply Sorted_StronglySorted in S; [|intros a b c0; apply str_leb_trans]. inversion S as [|? ? _ F]; subst.
+    rewrite Forall_forall in F. apply F. auto.
+Qed.
+
+(* ---- a loaded prefix map expands and compresses as listed ---- *)
+Theorem prefix_map_expand d pm c p u i : load true d (records_of_prefix_map pm) = Val c -> In (p, u) pm ->
+  expand_pair c p i false false = Val (Some (u ++ i)) /\ is_uri c (u ++ i) = true.
+Proof.
+  unfold load. rewrite prefix_map_records. simpl. intros Hc Hin.
+  set (rs := map (fun pu => rec0 (fst pu) (snd pu) [] [] None) pm) in *.
+  assert (Hr: In (rec0 p u [] [] None) rs) by (apply in_map_iff; exists (p, u); auto).
+  split.
+  - unfold expand_pair. rewrite (A_expand_ref _ _ _ Hc). unfold sp_expand_pair. unfold owner_by_prefix.
+    fold (owner all_prefixes rs p). rewrite (owner_reg all_prefixes rs p (rec0 p u [] [] None)); auto.
+    + apply (own_p _ _ _ Hc).
+    + left; reflexivity.
+  - apply (C01Facts.is_uri_iff _ _ _ (u ++ i) Hc). exists (rec0 p u [] [] None), u. repeat split; auto; [left; reflexivity|apply prefixb_app].
+Qed.
